@@ -185,6 +185,51 @@ fn instantiate_struct_field_ty(
     }
 }
 
+fn numeric_ty(ty: &tast::Ty) -> bool {
+    matches!(
+        ty,
+        tast::Ty::TInt8
+            | tast::Ty::TInt16
+            | tast::Ty::TInt32
+            | tast::Ty::TInt64
+            | tast::Ty::TUint8
+            | tast::Ty::TUint16
+            | tast::Ty::TUint32
+            | tast::Ty::TUint64
+            | tast::Ty::TFloat32
+            | tast::Ty::TFloat64
+    )
+}
+
+/// Numeric negation exists for numbers only.
+fn negation_operand_ty_ok(ty: &tast::Ty) -> bool {
+    numeric_ty(ty) || matches!(ty, tast::Ty::TVar(_))
+}
+
+/// Whether the builtin operator exists for operands of this (fully resolved) type: arithmetic on
+/// numbers, `+` also on strings, ordering on numbers and strings. An unresolved operand type is
+/// reported elsewhere.
+fn binary_operand_ty_ok(op: common_defs::BinaryOp, ty: &tast::Ty) -> bool {
+    let unresolved = matches!(ty, tast::Ty::TVar(_));
+    let numeric = numeric_ty(ty);
+    match op {
+        common_defs::BinaryOp::Add => numeric || unresolved || matches!(ty, tast::Ty::TString),
+        common_defs::BinaryOp::Sub | common_defs::BinaryOp::Mul | common_defs::BinaryOp::Div => {
+            numeric || unresolved
+        }
+        common_defs::BinaryOp::Less
+        | common_defs::BinaryOp::Greater
+        | common_defs::BinaryOp::LessEq
+        | common_defs::BinaryOp::GreaterEq => {
+            numeric || unresolved || matches!(ty, tast::Ty::TString)
+        }
+        common_defs::BinaryOp::And
+        | common_defs::BinaryOp::Or
+        | common_defs::BinaryOp::Eq
+        | common_defs::BinaryOp::NotEq => true,
+    }
+}
+
 fn decompose_struct_type(ty: &tast::Ty) -> Option<(TastIdent, Vec<tast::Ty>)> {
     match ty {
         tast::Ty::TStruct { name } => Some((TastIdent::new(name), Vec::new())),
@@ -1097,6 +1142,18 @@ impl Typer {
             } => {
                 let ty = self.subst_ty(diagnostics, &ty);
                 let expr = Box::new(self.subst(diagnostics, *expr));
+                if matches!(op, common_defs::UnaryOp::Neg)
+                    && !negation_operand_ty_ok(&expr.get_ty())
+                {
+                    super::util::push_error(
+                        diagnostics,
+                        format!(
+                            "Operator {:?} is not defined for an operand of type {:?}",
+                            op,
+                            expr.get_ty()
+                        ),
+                    );
+                }
                 tast::Expr::EUnary {
                     op,
                     expr,
@@ -1114,6 +1171,16 @@ impl Typer {
                 let ty = self.subst_ty(diagnostics, &ty);
                 let lhs = Box::new(self.subst(diagnostics, *lhs));
                 let rhs = Box::new(self.subst(diagnostics, *rhs));
+                if !binary_operand_ty_ok(op, &lhs.get_ty()) {
+                    super::util::push_error(
+                        diagnostics,
+                        format!(
+                            "Operator {:?} is not defined for operands of type {:?}",
+                            op,
+                            lhs.get_ty()
+                        ),
+                    );
+                }
                 tast::Expr::EBinary {
                     op,
                     lhs,
